@@ -38,7 +38,8 @@ RULE = ("random calibration layouts: 1-4 calibrated parameters drawn in any orde
         "arguments (1-4 placeholders) of the probe model and four detector fields, linear / logarithmic, shared or "
         "per-component boundaries, optimum inside or beyond the box; run by the real Calibration with sade / sga / "
         "seven derivative-free nlopt solvers, tiny populations, pygmo seeds, 1-3 islands, 1-3 evolutions, three "
-        "topologies, with and without best individuals; plus direct problem.fitness(x) on box corners and interior "
+        "topologies, with and without best individuals, one or two processors (result_input_arguments), re-simulation "
+        "of the champions; plus direct problem.fitness(x) on box corners and interior "
         "points of ModelFittingDataTree problems (bare and wrapped in pygmo.problem); non-trivial = >=2 parameters "
         "or a vector parameter; distinct = distinct (kind, parameter layout with boundaries, algorithm) signatures")
 ASSUMPTIONS = [
@@ -61,7 +62,8 @@ LEVEL_TEXT = ("Exploration by runtime monitoring: every generated calibration is
               "model's log of the values it received is the ground truth that boundaries, the decision->parameter mapping "
               "and the reported champion / best nodes are checked against. Held = on the executions observed.")
 LEVEL_NOTE = ("Trusted: the probe model and its lock; xarray selection on the returned tree; the 25-line mapping oracle. "
-              "Known finding: nlopt solver 'newuoa' ignores the box (family C10:nlopt-newuoa:*).")
+              "Known findings: nlopt solver 'newuoa' ignores the box (family C10:nlopt-newuoa:*); nlopt solver 'cobyla' "
+              "occasionally evaluates an uninitialised decision vector at the end of an evolution (C10:nlopt-cobyla:*).")
 
 RTOL = 1e-12
 ROWS, COLS = 3, 4
@@ -303,7 +305,7 @@ def gen_algo(rng, dim: int, tier: str) -> dict:
                 "mutation": mutation,
                 "selection": rng.choice(["tournament", "truncated"])}
     return {"type": "nlopt", "generations": 1, "population_size": rng.randint(1, 4),
-            "nlopt_solver": rng.choice(NLOPT_OK), "maxeval": rng.randint(8, 120 if big else 40),
+            "nlopt_solver": rng.choice(NLOPT_OK), "maxeval": rng.randint(2 * dim + 3, 120 if big else 40),
             "xtol_rel": 1e-8, "replacement": rng.choice(["best", "worst", "random"]),
             "nlopt_selection": rng.choice(["best", "worst", "random"])}
 
@@ -460,9 +462,11 @@ def is_newuoa(case: dict) -> bool:
 
 
 def mech(case: dict, what: str, cls: str | None = None) -> str:
-    """Mechanism key.  The 'outside the box' refutations of the one solver that ignores the box are a known family."""
-    if is_newuoa(case) and ("outside" in what or what == "run-failed"):
-        return f"C10:nlopt-newuoa:{what}"
+    """Mechanism key.  Candidates outside the box (and the run failures they cause) that occur under an NLopt
+    solver are keyed by the solver: on a correct mapping (checked for every algorithm by (c), (d), (e)) only the
+    solver itself can produce them (newuoa ignores the box, cobyla evaluates an uninitialised vector)."""
+    if case["algo"]["type"] == "nlopt" and ("outside" in what or what == "run-failed"):
+        return f"C10:nlopt-{case['algo'].get('nlopt_solver')}:{what}"
     return f"C10:{what}" + (f":{cls}" if cls else "")
 
 
@@ -657,8 +661,17 @@ def run_calibration_case(rec, index, case: dict) -> None:
         tree = pyxel.run_mode(mode=cal, detector=detector, pipeline=pipeline, with_inherited_coords=case["inherited"])
     except Exception as exc:  # noqa: BLE001
         import traceback
-        rec.violation(mech(case, "run-failed", algo["type"]),
-                      f"{type(exc).__name__}: {exc} :: {traceback.format_exc()[-900:]}", case, index)
+        log = log_snapshot()
+        clean = all(check_entry(rec, case, e, None, "candidate of a failed run", index) for e in log)
+        if algo["type"] == "nlopt" and not is_newuoa(case) and clean:
+            # NLopt solvers may end an evolution on a point that pygmo refuses as the next initial guess
+            # (bobyqa overshoots a boundary by one ulp): a refusal of the library, nothing was applied outside the box
+            rec.count("refused_nlopt_runs")
+            rec.observe("refused", f"{label}: {type(exc).__name__} after {len(log)} in-box evaluations")
+        else:
+            rec.violation(mech(case, "run-failed", algo["type"]),
+                          f"{type(exc).__name__}: {exc} :: {traceback.format_exc()[-900:]}", case, index)
+        rec.count("logged_evaluations", len(log))
         rec.case(signature(case), nontrivial)
         return
     log = log_snapshot()
@@ -794,13 +807,14 @@ def record_skipped(rec) -> None:
         rec.observe("skipped", f"nlopt:{solver}: needs a gradient, the fitting problem provides none (pygmo refuses)")
     rec.observe("skipped", "nlopt:auglag / auglag_eq: need a local_optimizer object, not a toy configuration")
     rec.observe("skipped", "ParameterValues(enabled=False): the flag is ignored by the calibration mode")
+    rec.observe("skipped", "nlopt maxeval < 2*dim+3: NLopt's newuoa_bound cannot build its model and evaluates NaN candidates")
 
 
 FORCES = (None, "vector_first", "log_after_vector", None)
 
 
 def plan(tier, seed):
-    n_cal, n_dir = (6, 12) if tier == "quick" else (60, 60)
+    n_cal, n_dir = (6, 10) if tier == "quick" else (60, 60)
     specs = [{"shard": s, "seed": seed, "kind": "mixed", "n": n_cal + n_dir, "n_cal": n_cal, "tier": tier}
              for s in range(16)]
     specs.append({"shard": 100, "seed": seed, "kind": "newuoa", "n": 2 if tier == "quick" else 6, "tier": tier})
